@@ -46,6 +46,8 @@ type poolOp struct {
 	// Long: thousands of scheduling points; kept out of the schedule exploration of C09 (its interleavings would be
 	// capped anyway), present in C08's histories and in C09's race-detector pass.
 	Long bool
+	// Huge: takes part in call histories of length <= 2 only
+	Huge bool
 }
 
 // csdRecord: record with compressed_speed_distance (and cycles / accumulated power) on local 1.
@@ -431,11 +433,51 @@ func buildOpPool() []poolOp {
 		}
 		pool = append(pool, decodeOp("Decode(big-endian records with 2-byte timestamps and narrow coordinates)", fitmodel.File(fitmodel.DefaultHeader, recs...), nil, nil))
 	}
+	// many distinct definitions in one input (a process-wide cache of parsed definitions would fill up and evict), and
+	// an activity well above 256 KiB (size-triggered paths)
+	{
+		recs := fitmodel.FileIdRecords(0, 4)
+		for i := 0; i < 1500; i++ {
+			d := fitmodel.Def{Local: byte(1 + i%3), Global: 20, Fields: []fitmodel.FieldDef{{Num: 3, Size: 1, Base: fitmodel.Uint8}, {Num: byte(200 + i%50), Size: byte(1 + i/50), Base: fitmodel.Byte}}}
+			pl := make([]byte, 1+1+i/50)
+			pl[0] = byte(60 + i%90)
+			recs = append(recs, d.Bytes(), fitmodel.Data(byte(1+i%3), pl))
+		}
+		// ... and the first 200 of them once more (a definition seen long ago comes back)
+		for i := 0; i < 200; i++ {
+			d := fitmodel.Def{Local: byte(1 + i%3), Global: 20, Fields: []fitmodel.FieldDef{{Num: 3, Size: 1, Base: fitmodel.Uint8}, {Num: byte(200 + i%50), Size: byte(1 + i/50), Base: fitmodel.Byte}}}
+			pl := make([]byte, 1+1+i/50)
+			pl[0] = byte(100 + i%90)
+			recs = append(recs, d.Bytes(), fitmodel.Data(byte(1+i%3), pl))
+		}
+		od := decodeOp("Decode(1500 distinct definitions in one activity)", fitmodel.File(fitmodel.DefaultHeader, recs...), nil, nil)
+		od.Long = true
+		pool = append(pool, od)
+		big := append(fitmodel.FileIdRecords(0, 4), recordDef(1, false).Bytes())
+		for i := 0; i < 30000; i++ {
+			big = append(big, recordData(1, false, uint32(1000000000+i), byte(60+i%100), uint32(i*3)))
+		}
+		o := decodeOp("Decode(activity with 30000 records, 293 KiB)", fitmodel.File(fitmodel.DefaultHeader, big...), nil, nil)
+		o.Long = true
+		o.Huge = true
+		// the dump of 30000 records is tens of megabytes: the histories compare its digest, length and record count
+		run := o.Run
+		o.Run = func(env opEnv) opResult {
+			r := run(env)
+			r.Text = fmt.Sprintf("%s... digest=%016x len=%d records=%d", trunc(r.Text, 300), vx.Hash(r.Text), len(r.Text), strings.Count(r.Text, "&RecordMsg{"))
+			return r
+		}
+		pool = append(pool, o)
+	}
 	// every call also reports the digest of the profile tables afterwards
 	for i := range pool {
 		run := pool[i].Run
 		pool[i].Run = func(env opEnv) opResult {
 			r := run(env)
+			if len(r.Text) > 200000 {
+				// large dumps travel between processes as head + digest + length
+				r.Text = fmt.Sprintf("%s... digest=%016x len=%d", trunc(r.Text, 2000), vx.Hash(r.Text), len(r.Text))
+			}
 			r.Text += " tables=" + tablesDigest()
 			return r
 		}
